@@ -214,6 +214,9 @@ struct World
     int log_errors = 0;
     bool shut = false;
     bool real_devices = false;
+    double devlat_p = 0;
+    int64_t devlat_max_ns = 1;
+    Rng devrng{ 1 };
 };
 
 static World* W;
@@ -372,7 +375,16 @@ static void
 install_hooks()
 {
     mock::Hooks& H = mock::hooks();
-    H.enter = [](const char* call, int) { yield_point(call); };
+    // Device calls are preemption points on entry and on return, and (a
+    // buggify knob drawn per run) occasionally slow: a real camera's stop or
+    // a storage device's start may take tens of milliseconds.
+    H.enter = [](const char* call, int) {
+        yield_point(call);
+        if (W->devlat_p > 0 && W->devrng.chance(W->devlat_p)) {
+            probe("fault.slow_device_call");
+            sleep_ns(1000 + W->devrng.below((uint64_t)W->devlat_max_ns));
+        }
+    };
     H.leave = [](const char* call, int) { yield_point(call); };
     H.cam_set = [](int inst, struct CameraProperties* p) -> int {
         CamState& c = W->cam[camdev_index(mock::instance(inst).dev)];
@@ -802,14 +814,19 @@ monitor_thread(int s, Op op, bool drainer = false)
         uint64_t invoked = ++w->seq;
         if (!mo.first_map_seq)
             mo.first_map_seq = invoked;
-        auto taint = [&]() {
+        // A stop/abort whose execution overlaps one of this client's map or
+        // unmap CALLS manipulates the same unsynchronised reader concurrently
+        // (known finding).  A stop that runs entirely while the client merely
+        // HOLDS a region is deterministic and is judged normally.
+        auto taint = [&](uint64_t call_begin) {
             uint64_t nowseq = ++w->seq;
             for (auto& a : w->acqs)
                 if (a.end_invoked_seq && a.end_invoked_seq < nowseq &&
-                    (a.end_returned_seq == 0 || a.end_returned_seq > invoked) &&
+                    (a.end_returned_seq == 0 ||
+                     a.end_returned_seq > call_begin) &&
                     !mo.is_raced(a.id)) {
                     mo.raced.push_back(a.id);
-                    probe("reach.stop_overlaps_client_hold");
+                    probe("reach.stop_overlaps_client_call");
                 }
         };
         enum AcquireStatusCode rc = acquire_map_read(w->rt, (uint32_t)s, &beg, &end);
@@ -847,7 +864,7 @@ monitor_thread(int s, Op op, bool drainer = false)
                         "acquire_map_read(stream %d) by a well-behaved client "
                         "(map, then unmap) returned an error (map #%lld)",
                         s, (long long)it);
-        taint();
+        taint(invoked);
         size_t nbytes = (size_t)((uint8_t*)end - (uint8_t*)beg);
         logline("MON%d map#%lld -> %zu bytes rc=%d first_id=%lld", s,
                 (long long)it, nbytes, (int)rc,
@@ -963,7 +980,6 @@ monitor_thread(int s, Op op, bool drainer = false)
             snapshot.assign((uint8_t*)beg, (uint8_t*)end);
             probe("reach.monitor_holds_region");
             sleep_ns((uint64_t)hold * 1000);
-            taint();
             // zero-copy consumers never see a frame change under them
             bool ended_meanwhile = false;
             for (auto& a : w->acqs)
@@ -1004,8 +1020,9 @@ monitor_thread(int s, Op op, bool drainer = false)
                 mo.next_id = fr[nf]->frame_id;
         }
         logline("MON%d unmap consumed=%zu of %zu", s, consumed, nbytes);
+        uint64_t unmap_begin = ++w->seq;
         rc = acquire_unmap_read(w->rt, (uint32_t)s, consumed);
-        taint();
+        taint(unmap_begin);
         if (rc != AcquireStatus_Ok)
             oracle_fail("C06.unmap_read_fails",
                         "acquire_unmap_read(stream %d) returned an error", s);
@@ -1176,6 +1193,14 @@ struct RtHarness : Harness
                                    faults && (s == 0 || g.chance(0.5)));
                 if ((abort_prof || prog_prof) && !last && g.chance(0.25))
                     sc[s].trig = 1;
+                // a device that refuses to start (C07/C08: the runtime must
+                // stay stoppable and reusable)
+                if ((abort_prof || prog_prof) && !last && g.chance(0.08)) {
+                    if (g.chance(0.5))
+                        sc[s].cs.fail_start = 1;
+                    else
+                        sc[s].ss.fail_start = 1;
+                }
                 if (abort_prof && !last && g.chance(0.2))
                     sc[s].n = INF_FRAMES;
                 // device switches between acquisitions (one stream only: a
@@ -1197,8 +1222,22 @@ struct RtHarness : Harness
                 }
             }
             ops.push_back("start");
+            if (fault_prof || (prog_prof && g.chance(0.3)) ||
+                (!abort_prof && g.chance(0.1)))
+                ops.push_back("await_idle max=2000000");
             if (prog_prof && g.chance(0.15))
                 ops.push_back("start"); // start while running
+            if ((prog_prof && g.chance(0.3)) ||
+                (!abort_prof && !fault_prof && !mon_prof && g.chance(0.1))) {
+                // restart without stop once the runtime says it is done
+                bool finite = true;
+                for (int s = 0; s < nstreams; ++s)
+                    finite &= sc[s].n != INF_FRAMES && !sc[s].trig;
+                if (finite) {
+                    ops.push_back("await_armed max=3000000");
+                    ops.push_back("start");
+                }
+            }
             int extra = (int)g.below(3);
             for (int e = 0; e < extra; ++e) {
                 int k = (int)g.below(5);
@@ -1278,8 +1317,15 @@ struct RtHarness : Harness
         // enough that such waits cost thousands, not millions, of steps
         static const int64_t qs[] = { 1000, 10000, 100000 };
         p.seti("sched.quantum_ns", qs[sg.below(3)]);
-        if (p.geti("sched.max_stall_ns", 0) > 5000000)
+        if (p.geti("sched.max_stall_ns", 0) > 5000000 &&
+            p.geti("sched.quantum_ns", 0) < 10000)
             p.seti("sched.max_stall_ns", 5000000);
+        if (sg.chance(0.35)) {
+            static const double dp[] = { 0.01, 0.05, 0.2 };
+            static const int64_t dm[] = { 200, 5000, 40000 };
+            p.setd("devlat_p", dp[sg.below(3)]);
+            p.seti("devlat_max_us", dm[sg.below(3)]);
+        }
         return p;
     }
 
@@ -1474,9 +1520,19 @@ struct RtHarness : Harness
             a->end_invoked_seq = ++w->seq;
             a->ended = is_abort ? "abort" : "stop";
         }
+        // "stop and abort still return" is also a clause of C09 when a
+        // frame call or an append was made to fail
+        bool c09 = false;
+        if (a)
+            for (int s = 0; s < 2; ++s)
+                c09 |= a->cfg[s].valid && (a->cfg[s].cs.fail_frame >= 0 ||
+                                           a->cfg[s].ss.fail_append >= 0);
+        std::string pfx = c09 && active_property() == "C09" ? "C09" : "C07";
+        std::string oid =
+          pfx + (is_abort ? ".abort_does_not_return" : ".stop_does_not_return");
         int budget = expect_progress(
-          is_abort ? "C07.abort_does_not_return" : "C07.stop_does_not_return",
-          is_abort ? "acquire_abort returns" : "acquire_stop returns", 300000);
+          oid.c_str(), is_abort ? "acquire_abort returns" : "acquire_stop returns",
+          300000);
         logline("CLIENT %s invoked", is_abort ? "abort" : "stop");
         enum AcquireStatusCode rc =
           is_abort ? acquire_abort(w->rt) : acquire_stop(w->rt);
@@ -1488,6 +1544,11 @@ struct RtHarness : Harness
         for (int t : w->drainers)
             join(t);
         w->drainers.clear();
+        // the client's helper threads are back before it calls into the
+        // runtime again
+        for (int t : w->helper_tids)
+            join(t);
+        w->helper_tids.clear();
         probe(is_abort ? "n.aborts" : "n.stops");
         if (a) {
             if (!a->end_returned_seq)
@@ -1504,6 +1565,9 @@ struct RtHarness : Harness
         simdl::reset();
         mock::reset();
         World* w = W = new World();
+        w->devlat_p = plan.getd("devlat_p", 0);
+        w->devlat_max_ns = std::max<int64_t>(1, plan.geti("devlat_max_us", 0) * 1000);
+        w->devrng = Rng(mix64(plan.seed, 0xde71a7));
         install_hooks();
         {
             simdl::Lib l;
@@ -1542,7 +1606,30 @@ struct RtHarness : Harness
                 if (w->running_expected)
                     continue; // re-configuration while running is excluded
                 do_configure();
+            } else if (op.name == "await_armed") {
+                // the repeat-start-without-stop pattern: poll the state until
+                // the acquisition has ended by itself
+                uint64_t deadline = now_ns() + (uint64_t)op.i("max", 1000000) * 1000;
+                while (acquire_get_state(w->rt) == DeviceState_Running &&
+                       now_ns() < deadline)
+                    sleep_ns(100000);
+                probe("reach.await_armed");
             } else if (op.name == "start") {
+                if (w->running_expected && current_acq() &&
+                    !current_acq()->judged &&
+                    acquire_get_state(w->rt) != DeviceState_Running) {
+                    // the previous acquisition ended by itself (finite frame
+                    // count or a fault): it is complete as far as the runtime
+                    // is concerned and may be restarted without stop
+                    AcqRec* pa = current_acq();
+                    pa->ended = "stop"; // judged like a stopped one
+                    pa->end_invoked_seq = pa->end_returned_seq = ++w->seq;
+                    pa->judged = true;
+                    for (int s2 = 0; s2 < 2; ++s2)
+                        judge_stream(*pa, s2);
+                    w->running_expected = false;
+                    probe("reach.restart_without_stop");
+                }
                 bool was_running = w->running_expected;
                 if (!was_running) {
                     AcqRec a;
@@ -1604,6 +1691,22 @@ struct RtHarness : Harness
                 }
             } else if (op.name == "sleep") {
                 sleep_ns((uint64_t)op.i("us", 1) * 1000);
+            } else if (op.name == "await_idle") {
+                // wait (bounded, virtual time) until every worker thread has
+                // exited by itself, then ask for the state
+                uint64_t deadline = now_ns() + (uint64_t)op.i("max", 1000000) * 1000;
+                while (live_created_threads() > 0 && now_ns() < deadline)
+                    sleep_ns(200000);
+                if (live_created_threads() == 0 && w->running_expected &&
+                    !w->real_devices) {
+                    enum DeviceState st = acquire_get_state(w->rt);
+                    probe("reach.state_queried_after_workers_exited");
+                    if (st == DeviceState_Running)
+                        oracle_fail("C09.running_after_workers_exited",
+                                    "every worker thread of the acquisition "
+                                    "has exited but acquire_get_state still "
+                                    "reports Running");
+                }
             } else if (op.name == "state") {
                 int live = live_created_threads();
                 enum DeviceState st = acquire_get_state(w->rt);
